@@ -88,11 +88,19 @@ def judge(prog, run, res, out: Outcome, inject):
                 if any(dp[: len(anc)] == anc for dp in disp_exit_raise_paths):
                     break
                 if any(
-                    e["ev"] == "task_end" and e.get("how") == "failed" and tuple(e["path"])[: len(anc)] == anc and e["it"] <= ex["it"]
+                    e["ev"] == "task_end"
+                    and e.get("how") == "failed"
+                    and e["it"] <= ex["it"]
+                    and (
+                        tuple(e["path"])[: len(anc)] == anc
+                        or (run.owner_of.get(tuple(e["path"])) is not None and anc[: len(run.owner_of[tuple(e["path"])])] == run.owner_of[tuple(e["path"])])
+                    )
                     for e in run.log
                 ):
-                    # a task spawned inside this block failed before the block was left: the task group cancels the
-                    # owner, which may hit the cleanup phase (what a failed spawned task does to its owner is not judged)
+                    # a task spawned inside this block - or into the group of a scope ENCLOSING it - failed before the
+                    # block was left: the task group cancels the owner, and that cancellation lands wherever the owner
+                    # currently is, possibly in this block's cleanup (what a failed spawned task does to its owner is
+                    # not judged)
                     out.unspecified.append("body-exception-while-spawned-task-fails")
                     break
                 if ex["exc"] is not r["exc"]:
